@@ -15,6 +15,17 @@ CHECKS = {
             'States are merged on model contents + alias relation + called-literal set; histories longer than the depth '
             'bound and keys/values outside the alphabet are not covered. Known finding: 0cX and "X" are one key.',
             'DESIGN.md §3 C10'),
+    'C15': ('E3-vloop', 'model_checking',
+            'exhaustive enumeration of callback scripts x event-loop dispatch latencies (deviation-bounded) on a '
+            'virtual-time asyncio loop running the real timer code, vs. a timer reference model',
+            'The real .timer/.timerc code runs on a virtual-time loop; every scenario (interval, start, per-tick '
+            'duration/return/action script, external cancels, second timer) is combined with every sequence of '
+            'dispatch-latency choices with at most 1 (quick) / 2 (thorough) deviations; each run is compared tick by '
+            'tick with a 40-line timer model (boundaries, no double service, no overlap, stop for good, .timerc '
+            'result, re-resolution of the named callback).',
+            'BaseEventLoop semantics for handles and clock resolution are trusted; boundary reached exactly when the '
+            'callback returns may count either way; nothing is prescribed after a raising callback.',
+            'DESIGN.md §3 C15, Appendix C'),
     'C16': ('E1-bfs', 'model_checking',
             'explicit-state BFS over store operation histories on the real KeyValueStorage/TableStorage over an '
             'in-memory file system vs. dict model + accounting invariants',
